@@ -56,6 +56,8 @@ def op_pool(ctx, lays):
         # cut inside a group / bitfield: error path
         if len(P) > 3:
             ops.append({"kind": "parse", "f": frame(l["cls"], l["id"], P[:rng.randrange(1, len(P))]).hex(), "mode": l["m"], "pbf": pbf})
+        # payload longer than the definition (trailing bytes after the last field / a ragged last group item)
+        ops.append({"kind": "parse", "f": frame(l["cls"], l["id"], P + rng.randbytes(rng.randrange(1, 4))).hex(), "mode": l["m"], "pbf": pbf})
         # wrong mode
         ops.append({"kind": "parse", "f": f.hex(), "mode": (l["m"] + 1) % 3, "pbf": pbf})
         msg0, pre, _ = walk.parse_payload(l["m"], l["cls"], l["id"], pbf, build.zero_hp(l, P))
